@@ -555,6 +555,91 @@ w('C14', 'ChangeExecutor rejects plans when the validator cap is reached', 'C14.
 w('C14', 'BENIGN: plan lookup hoisted into a local before the if', '',
   (AB, '\tif plan, found := k.ExecutorChangePlans[uint64(height)]; found { //nolint:gosec\n', '\th := uint64(height) //nolint:gosec\n\tplan, found := k.ExecutorChangePlans[h]\n\tif found {\n'))
 
+
+BH='x/ophost/types/hook/bridge_hook.go'
+HU='x/ophost/types/hook/utils.go'
+HK='x/ophost/types/hooks.go'
+# ---------------- C19
+w('C19', 'fresh-channel check seq != 1 -> seq == 0', 'C19.R2',
+  (BH, '\t} else if seq != 1 {', '\t} else if seq == 0 {'))
+w('C19', 'IsTaken check dropped', 'C19.R2',
+  (BH, '\t} else if taken {\n\t\treturn channeltypes.ErrChannelExists.Wrap("cannot register ibcperm admin for the channel in use")\n\t}', '\t} else if taken && false {\n\t\treturn channeltypes.ErrChannelExists.Wrap("cannot register ibcperm admin for the channel in use")\n\t}'))
+w('C19', 'missing channel tolerated', 'C19.R2',
+  (BH, '\tif seq, ok := h.IBCChannelKeeper.GetNextSequenceSend(ctx, portID, channelID); !ok {\n\t\treturn channeltypes.ErrChannelNotFound.Wrap("failed to register ibcperm admin")\n\t} else if seq != 1 {', '\tif seq, ok := h.IBCChannelKeeper.GetNextSequenceSend(ctx, portID, channelID); ok && seq != 1 {'))
+w('C19', 'freshness checked for a different channel than the one granted', 'C19.R2',
+  (BH, 'h.IBCChannelKeeper.GetNextSequenceSend(ctx, portID, channelID)', 'h.IBCChannelKeeper.GetNextSequenceSend(ctx, portID, "channel-0")'))
+w('C19', 'DisallowUnknownFields removed', 'C19.R3',
+  (HU, '\tdecoder.DisallowUnknownFields()\n', ''))
+w('C19', 'decode error ignored (returns true)', 'C19.R3',
+  (HU, '\tif err := decoder.Decode(&data); err != nil {\n\t\treturn false, data\n\t}', '\t_ = decoder.Decode(&data)'))
+w('C19', 'key probe dropped', 'C19.R3',
+  (HU, '\tif !jsonStringHasKey(string(metadata), permsMetadataKey) {\n\t\treturn false, data\n\t}\n', ''))
+w('C19', 'BridgeCreated registers without the metadata gate', 'C19.R3',
+  (BH, 'func (h BridgeHook) BridgeCreated(\n\tctx context.Context,\n\tbridgeId uint64,\n\tbridgeConfig ophosttypes.BridgeConfig,\n) error {\n\thasPermChannels, metadata := hasPermChannels(bridgeConfig.Metadata)\n\tif !hasPermChannels {\n\t\treturn nil\n\t}', 'func (h BridgeHook) BridgeCreated(\n\tctx context.Context,\n\tbridgeId uint64,\n\tbridgeConfig ophosttypes.BridgeConfig,\n) error {\n\t_, metadata := hasPermChannels(bridgeConfig.Metadata)'))
+w('C19', 'MetadataUpdated re-registers even when the challenger is already admin (skip removed)', 'C19.R3',
+  (BH, '\t\t} else if hasPerm {\n\t\t\tcontinue\n\t\t}', '\t\t} else if hasPerm && false {\n\t\t\tcontinue\n\t\t}'))
+w('C19', 'ChallengerUpdated grants the proposer', 'C19.R3',
+  (BH, 'func (h BridgeHook) BridgeChallengerUpdated(\n\tctx context.Context,\n\tbridgeId uint64,\n\tbridgeConfig ophosttypes.BridgeConfig,\n) error {\n\thasPermChannels, metadata := hasPermChannels(bridgeConfig.Metadata)\n\tif !hasPermChannels {\n\t\treturn nil\n\t}\n\n\tchallenger, err := h.ac.StringToBytes(bridgeConfig.Challenger)', 'func (h BridgeHook) BridgeChallengerUpdated(\n\tctx context.Context,\n\tbridgeId uint64,\n\tbridgeConfig ophosttypes.BridgeConfig,\n) error {\n\thasPermChannels, metadata := hasPermChannels(bridgeConfig.Metadata)\n\tif !hasPermChannels {\n\t\treturn nil\n\t}\n\n\tchallenger, err := h.ac.StringToBytes(bridgeConfig.Proposer)'))
+w('C19', 'hook error ignored in UpdateMetadata', 'C19.R4',
+  (HM, '\tif err := ms.Keeper.bridgeHook.BridgeMetadataUpdated(ctx, bridgeId, config); err != nil {\n\t\treturn nil, err\n\t}', '\t_ = ms.Keeper.bridgeHook.BridgeMetadataUpdated(ctx, bridgeId, config)'))
+w('C19', 'UpdateChallenger runs the hook with the old challenger', 'C19.R4',
+  (HM, '\tconfig.Challenger = req.Challenger\n\tif err := ms.Keeper.bridgeHook.BridgeChallengerUpdated(ctx, bridgeId, config); err != nil {\n\t\treturn nil, err\n\t}', '\tif err := ms.Keeper.bridgeHook.BridgeChallengerUpdated(ctx, bridgeId, config); err != nil {\n\t\treturn nil, err\n\t}\n\tconfig.Challenger = req.Challenger'))
+w('C19', 'UpdateMetadata stores the config before the hook', 'C19.R4',
+  (HM, '\tconfig.Metadata = req.Metadata\n\tif err := ms.Keeper.bridgeHook.BridgeMetadataUpdated(ctx, bridgeId, config); err != nil {\n\t\treturn nil, err\n\t}\n\n\tif err := ms.SetBridgeConfig(ctx, bridgeId, config); err != nil {\n\t\treturn nil, err\n\t}', '\tconfig.Metadata = req.Metadata\n\tif err := ms.SetBridgeConfig(ctx, bridgeId, config); err != nil {\n\t\treturn nil, err\n\t}\n\tif err := ms.Keeper.bridgeHook.BridgeMetadataUpdated(ctx, bridgeId, config); err != nil {\n\t\treturn nil, err\n\t}'))
+w('C19', 'fan-out ignores hook errors for BridgeCreated', 'C19.R4',
+  (HK, 'func (hooks BridgeHooks) BridgeCreated(\n\tctx context.Context,\n\tbridgeId uint64,\n\tbridgeConfig BridgeConfig,\n) error {\n\tfor _, h := range hooks {\n\t\tif err := h.BridgeCreated(ctx, bridgeId, bridgeConfig); err != nil {\n\t\t\treturn err\n\t\t}\n\t}', 'func (hooks BridgeHooks) BridgeCreated(\n\tctx context.Context,\n\tbridgeId uint64,\n\tbridgeConfig BridgeConfig,\n) error {\n\tfor _, h := range hooks {\n\t\t_ = h.BridgeCreated(ctx, bridgeId, bridgeConfig)\n\t}'))
+w('C19', 'new SetAdmin site: ProposerUpdated hands channels to the proposer', 'C19.R1',
+  (BH, 'func (h BridgeHook) BridgeProposerUpdated(\n\tctx context.Context,\n\tbridgeId uint64,\n\tbridgeConfig ophosttypes.BridgeConfig,\n) error {\n\treturn nil', 'func (h BridgeHook) BridgeProposerUpdated(\n\tctx context.Context,\n\tbridgeId uint64,\n\tbridgeConfig ophosttypes.BridgeConfig,\n) error {\n\tif ok, md := hasPermChannels(bridgeConfig.Metadata); ok {\n\t\tfor _, pc := range md.PermChannels {\n\t\t\t_ = h.IBCPermKeeper.SetAdmin(ctx, pc.PortID, pc.ChannelID, sdk.AccAddress(bridgeConfig.Proposer))\n\t\t}\n\t}\n\treturn nil'))
+w('C19', 'BENIGN: registerChannelAdmin with separated statements', '',
+  (BH, '\tif seq, ok := h.IBCChannelKeeper.GetNextSequenceSend(ctx, portID, channelID); !ok {\n\t\treturn channeltypes.ErrChannelNotFound.Wrap("failed to register ibcperm admin")\n\t} else if seq != 1 {\n\t\treturn channeltypes.ErrChannelExists.Wrap("cannot register ibcperm admin for the channel in use")\n\t}', '\tnextSeq, exists := h.IBCChannelKeeper.GetNextSequenceSend(ctx, portID, channelID)\n\tif !exists {\n\t\treturn channeltypes.ErrChannelNotFound.Wrap("failed to register ibcperm admin")\n\t}\n\tif nextSeq > 1 || nextSeq < 1 {\n\t\treturn channeltypes.ErrChannelExists.Wrap("cannot register ibcperm admin for the channel in use")\n\t}'))
+
+
+FE='x/opchild/ante/fee.go'
+FU='x/opchild/ante/fee_utils.go'
+AN='x/opchild/ante/ante.go'
+LS='x/opchild/lanes/system.go'
+LF='x/opchild/lanes/free.go'
+# ---------------- C20
+w('C20', 'IsAnyGTE -> IsAllGTE', 'C20.R1',
+  (FE, 'if !feeCoins.IsAnyGTE(requiredFees) {', 'if !feeCoins.IsAllGTE(requiredFees) {'))
+w('C20', 'combined prices: LT -> GT (takes the smaller price)', 'C20.R1',
+  (FU, '} else if minGasPrices.AmountOf(cmgp.Denom).LT(cmgp.Amount) {', '} else if minGasPrices.AmountOf(cmgp.Denom).GT(cmgp.Amount) {'))
+w('C20', 'combined prices: zero node price keeps zero (chain floor ignored)', 'C20.R1',
+  (FU, '\t\tif minGasPrices.AmountOf(cmgp.Denom).IsZero() {\n\t\t\tminGasPrices = minGasPrices.Add(cmgp)\n\t\t} else if', '\t\tif minGasPrices.AmountOf(cmgp.Denom).IsZero() {\n\t\t\tcontinue\n\t\t} else if'))
+w('C20', 'required fee truncated instead of rounded up', 'C20.R1',
+  (FU, 'sdk.NewCoin(gp.Denom, fee.Ceil().RoundInt())', 'sdk.NewCoin(gp.Denom, fee.TruncateInt())'))
+w('C20', 'fee floor enforced in DeliverTx too', 'C20.R1',
+  (FE, '\tif ctx.IsCheckTx() {', '\tif ctx.IsCheckTx() || !ctx.IsReCheckTx() {'))
+w('C20', 'chain min gas prices ignored', 'C20.R1',
+  (FE, '\t\t\tminGasPrices = CombinedMinGasPrices(minGasPrices, paramsMinGasPrices)', '\t\t\t_ = paramsMinGasPrices'))
+w('C20', 'required fee computed with gas 1', 'C20.R1',
+  (FE, 'requiredFees := computeRequiredFees(gas, minGasPrices)', 'requiredFees := computeRequiredFees(1, minGasPrices)\n\t\t\t_ = gas'))
+w('C20', 'system lane accepts any non-empty tx whose first... len != 1 -> len == 0', 'C20.R2',
+  (LS, '\t\tif len(tx.GetMsgs()) != 1 {', '\t\tif len(tx.GetMsgs()) == 0 {'))
+w('C20', 'system lane accepts MsgExec with several inner messages', 'C20.R2',
+  (LS, 'if err != nil || len(msgs) != 1 {', 'if err != nil || len(msgs) < 1 {'))
+w('C20', 'system lane does not look inside MsgExec', 'C20.R2',
+  (LS, '\t\t\t\t} else if _, ok := msgs[0].(*types.MsgUpdateOracle); !ok {\n\t\t\t\t\treturn false\n\t\t\t\t}', '\t\t\t\t}'))
+w('C20', 'system lane default branch accepts unknown messages', 'C20.R2',
+  (LS, '\t\t\tdefault:\n\t\t\t\treturn false', '\t\t\tdefault:'))
+w('C20', 'free lane matches any whitelist entry when the payer cannot be encoded', 'C20.R3',
+  (LF, '\t\t} else if payer, err := h.ac.BytesToString(feeTx.FeePayer()); err != nil {\n\t\t\treturn false', '\t\t} else if payer, err := h.ac.BytesToString(feeTx.FeePayer()); err != nil {\n\t\t\treturn len(whitelist) > 0'))
+w('C20', 'free lane returns true for an empty whitelist', 'C20.R3',
+  (LF, '\t\t\tfor _, addr := range whitelist {\n\t\t\t\tif addr == payer || addr == granter {\n\t\t\t\t\treturn true\n\t\t\t\t}\n\t\t\t}\n\t\t}\n\n\t\treturn false', '\t\t\tfor _, addr := range whitelist {\n\t\t\t\tif addr == payer || addr == granter {\n\t\t\t\t\treturn true\n\t\t\t\t}\n\t\t\t}\n\t\t}\n\n\t\treturn true'))
+w('C20', 'free lane compares != instead of ==', 'C20.R3',
+  (LF, 'if addr == payer || addr == granter {', 'if addr != payer || addr == granter {'))
+w('C20', 'redundancies counted for every deposit message', 'C20.R4',
+  (AN, '\t\t\t\tif response.Result == types.NOOP {\n\t\t\t\t\tredundancies++\n\t\t\t\t}', '\t\t\t\tredundancies++\n\t\t\t\t_ = response'))
+w('C20', 'redundancy filter also active in DeliverTx', 'C20.R4',
+  (AN, 'if (ctx.IsCheckTx() || ctx.IsReCheckTx()) && !simulate {', 'if !simulate {'))
+w('C20', 'txs without deposit messages rejected as redundant (packetMsgs > 0 dropped)', 'C20.R4',
+  (AN, 'if redundancies == packetMsgs && packetMsgs > 0 {', 'if redundancies == packetMsgs {'))
+w('C20', 'redundant tx passes (next called anyway)', 'C20.R4',
+  (AN, '\t\t\treturn ctx, types.ErrRedundantTx\n', '\t\t\t_ = types.ErrRedundantTx\n'))
+w('C20', 'BENIGN: fee floor combination with explicit GTE ordering of branches', '',
+  (FU, '\t\tif minGasPrices.AmountOf(cmgp.Denom).IsZero() {\n\t\t\tminGasPrices = minGasPrices.Add(cmgp)\n\t\t} else if minGasPrices.AmountOf(cmgp.Denom).LT(cmgp.Amount) {\n\t\t\tminGasPrices = minGasPrices.Add(cmgp.Sub(sdk.NewDecCoinFromDec(cmgp.Denom, minGasPrices.AmountOf(cmgp.Denom))))\n\t\t} // else, GTE, use the original minGasPrice {',
+       '\t\tcurrent := minGasPrices.AmountOf(cmgp.Denom)\n\t\tif current.IsZero() {\n\t\t\tminGasPrices = minGasPrices.Add(cmgp)\n\t\t\tcontinue\n\t\t}\n\t\tif current.GTE(cmgp.Amount) {\n\t\t\tcontinue\n\t\t}\n\t\tminGasPrices = minGasPrices.Add(cmgp.Sub(sdk.NewDecCoinFromDec(cmgp.Denom, minGasPrices.AmountOf(cmgp.Denom))))'))
+
 #@@MORE@@
 for p,l in W.items():
     json.dump(l, open(os.path.join(HERE,p+'.json'),'w'), indent=1)
